@@ -71,8 +71,10 @@ pub struct StCtx {
     pub spurious_fired: u64,
     /// crash snapshots: (pointer, len) of the arena memory to copy at every step
     pub snap_src: Option<(usize, usize)>,
-    pub snaps: Vec<(u64, Vec<u8>, (u32, u8, u8))>,
+    pub snaps: Vec<(u64, Vec<u8>, (u32, u8, u8), Option<u32>)>,
     pub last_access: (u32, u8, u8),
+    /// line of a removal-mark CAS (size field set to 0) that is neither unlinked nor taken back yet
+    pub outstanding_mark: Option<u32>,
     pub snap_every: u64,
     /// plain writes by the arena observed since last cleared: (addr, len)
     pub plain: Vec<(usize, usize)>,
@@ -88,6 +90,7 @@ impl StCtx {
     pub fn begin_call(&mut self) {
         self.step_in_call = 0;
         self.last_access = (0, 0, 0);
+        self.outstanding_mark = None;
         self.plain.clear();
     }
     fn allowed(&self, addr: usize, width: usize) -> bool {
@@ -150,7 +153,8 @@ impl Hook for SimHook {
                         let bytes = unsafe { std::slice::from_raw_parts(p as *const u8, l) }.to_vec();
                         let step = st.total_steps;
                         let la = st.last_access;
-                        st.snaps.push((step, bytes, la));
+                        let om = st.outstanding_mark;
+                        st.snaps.push((step, bytes, la, om));
                     }
                 }
                 if a.kind == Kind::CasWeak {
@@ -180,6 +184,10 @@ impl Hook for SimHook {
                 st.trace_hash = hash_add(hash_add(st.trace_hash, n), ((a.line as u64) << 8) | ((kind_id(a.kind) as u64) << 2) | outcome as u64);
                 *st.probes.entry((a.line, kind_id(a.kind), outcome)).or_insert(0) += 1;
                 st.last_access = (a.line, kind_id(a.kind), outcome);
+                if a.width == 8 && a.success && matches!(a.kind, Kind::Cas | Kind::CasWeak) {
+                    let is_mark = (a.operand >> 32) == 0 && (a.expected >> 32) != 0;
+                    st.outstanding_mark = if is_mark { Some(a.line) } else { None };
+                }
             }),
             Mode::Mt(t) => crate::mt::after(t, a),
         }
